@@ -17,9 +17,12 @@ structure LigeroParams where
   checkWf : Bool
   deriving DecidableEq, Repr
 
-/-- `UnivariateLigero::setup` / `MultilinearLigero::setup`: `LigeroPCParams::new(128, 4, true, ..)`;
-degree, number of variables and RNG are not read, the hash parameters are passed through -/
+/-- `UnivariateLigero::setup`: `LigeroPCParams::new(128, 4, true, ..)`; degree, number of variables
+and RNG are not read, the hash parameters are passed through -/
 def ligeroSetup : LigeroParams := ⟨128, 4, true⟩
+
+/-- `MultilinearLigero::setup`: `LigeroPCParams::new(128, 2, true, ..)` (inverse rate 2) -/
+def ligeroSetupML : LigeroParams := ⟨128, 2, true⟩
 
 /-- `LinCodeParametersInfo::distance` of Ligero: `(rho_inv − 1, rho_inv)` -/
 def LigeroParams.distance (pp : LigeroParams) : Nat × Nat := (pp.rhoInv - 1, pp.rhoInv)
